@@ -212,6 +212,9 @@ def misc_cases():
             if not isinstance(JSON_OBJS[i], str):      # a str argument IS json text by the constructor's contract
                 out.append(('JSONData', cls, 'obj', i))
             out.append(('JSONData', cls, 'str', i))
+        for delta in (-2, -1, 0):           # extreme values: encodings just below / exactly at the size limit
+            for form in ('obj', 'str'):
+                out.append(('JSONDataBig', cls, form, delta))
     # gateway
     for fam in ('4', '6'):
         for mac in (False, True):
@@ -284,6 +287,23 @@ def eval_misc(case):
                     bad('JSONData/field-lost', f're-decoded {y.data!r}')
             if case[2] == 'obj' and obj != JSON_OBJS[case[3]]:
                 bad('JSONData/encode-mutates', 'input object changed')
+        elif kind == 'JSONDataBig':
+            cls = {'MeasurementData': MeasurementData, 'UserData': UserData, 'LayoutData': LayoutData}[case[1]]
+            size = cls.MAX_SIZE + case[3]
+            text = '{"k": "' + 'x' * (size - len('{"k": ""}')) + '"}'
+            obj = json.loads(text)
+            try:
+                x = cls(obj if case[2] == 'obj' else text)
+            except Exception:
+                x = None                      # where exactly the limit lies is C16's business
+            if x is not None:
+                try:
+                    y = cls(x.json)
+                    if y.data != obj or y.json != x.json:
+                        bad('JSONData/field-lost', f'{size}-char encoding re-decoded differently')
+                except Exception as e:
+                    bad('JSONData/own-encoding-rejected', f'{case[1]} accepted a value whose encoding has {len(x.json)} chars '
+                        f'(limit {cls.MAX_SIZE}) but decoding that encoding raises {type(e).__name__}: {e}')
         elif kind == 'Gateway':
             if case[1] == 'none':
                 x = Gateway(None)
